@@ -313,11 +313,28 @@ class Printer:
         return "\n".join(out) + "\n"
 
 
-def program(fn, nnext, gen_closures):
-    """nnext[i] = number of `next` calls for argument tuple i"""
+def slots_of(size):
+    """capacity (slots) of a fresh value stack for a value of ELK_INIT_VALUE_STACK_SIZE (vm/vm.go init)"""
+    return max(256, int(DEFAULT_INIT if size is None else size) // VALUE_SIZE)
+
+
+def sweep_plan(cfg):
+    """[(phase, lo, hi, stride)]: phase 1 crosses 70 % of the initial capacity, phase 2 70 % of the doubled one"""
+    slots, st = slots_of(cfg["size"]), cfg["stride"]
+    d1 = -(-7 * slots // (10 * FRAME)) + 2 * st
+    d2 = -(-14 * slots // (10 * FRAME)) + 2 * st
+    d1 -= d1 % st
+    second = "F" if cfg["first"] == "N" else "N"
+    return [(cfg["first"], 0, d1, st), (second, d1 + st, d2, st)]
+
+
+def program(fn, nnext, gen_closures, cfg=None):
+    """nnext[i] = number of `next` calls for argument tuple i; cfg: size / stride / first / many (sections D and M)"""
     np_ = int(fn[1])
     argsets = fn[5:]
     src = [PRELUDE, Printer("P", True).func(fn), Printer("G", gen_closures).func(fn), Printer("A", True).func(fn)]
+    if cfg is not None:
+        src += [Printer("M", True).func(fn), PRELUDE_DEPTH]
     params = ", ".join("x%d: Int" % i for i in range(np_))
     pnames = ", ".join("x%d" % i for i in range(np_))
     src.append('''async def drv(%s): String
@@ -361,8 +378,62 @@ end
     for i, a in enumerate(argsets):
         al = ", ".join(("(%s)" % v if v.startswith("-") else v) for v in a)
         src.append('println("# A %d")\ndo\n  r := await af(%s)\n  println("R " + r.inspect)\ncatch String() as e\n  println("E " + e)\nend\n' % (i, al))
+    if cfg is not None:
+        src.append('''def sweep_n(lo: Int, hi: Int, st: Int, k: Int, %s)
+  d := lo
+  idx := 0
+  while d <= hi
+    g := gf(%s)
+    s := ""
+    j := idx %% (k + 1)
+    i := 0
+    while i < k
+      dd := d
+      if i < j
+        dd = 0
+      end
+      s = s + nxd(dd, g) + "|"
+      i += 1
+    end
+    println("D N " + d.inspect + " " + s)
+    d += st
+    idx += 1
+  end
+end
+def sweep_f(lo: Int, hi: Int, st: Int, k: Int, %s)
+  d := lo
+  while d <= hi
+    println("D F " + d.inspect + " " + fd(d, gf(%s)))
+    d += st
+  end
+end
+''' % (params, pnames, params, pnames))
+        al0 = ", ".join(("(%s)" % v if v.startswith("-") else v) for v in argsets[0])
+        src.append('println("# D 0")')
+        for ph, lo, hi, st in sweep_plan(cfg):
+            src.append("sweep_%s(%d, %d, %d, %d, %s)" % (ph.lower(), lo, hi, st, nnext[0], al0))
+        src.append('println("# M 0")\nmi := 0\nwhile mi < %d' % cfg["many"])
+        for a in argsets:
+            al = ", ".join(("(%s)" % v if v.startswith("-") else v) for v in a)
+            src.append('  do\n    r := await am(%s)\n    println("R " + r.inspect)\n  catch String() as e\n    println("E " + e)\n  end' % al)
+        src.append('  mi += 1\nend\n')
     src.append('println("# DONE")\n')
     return "\n".join(src)
+
+
+def depth_expected(cfg, secs, nargs):
+    """expected lines of sections D and M from the model's G / F / P expectations"""
+    g = secs[("G", 0)][:-1]
+    f = secs[("F", 0)]
+    fl = "E " + f[-1].split(" ")[1] if f[-1].startswith("E ") else "".join("V %s|" % l[2:] for l in f[:-1]) + "END"
+    d = []
+    for ph, lo, hi, st in sweep_plan(cfg):
+        for depth in range(lo, hi + 1, st):
+            d.append("D N %d %s" % (depth, "".join(t + "|" for t in g)) if ph == "N" else "D F %d %s" % (depth, fl))
+    once = []
+    for j in range(nargs):
+        once += secs[("P", j)]
+    return d, once * cfg["many"]
 
 
 # ------------------------------------------------------------------ model input / expected sections
@@ -407,7 +478,7 @@ def split_sections(out):
     done = False
     tail = []
     for line in out.splitlines():
-        m = re.match(r"^# ([PFGBA]) (\d+)$", line)
+        m = re.match(r"^# ([PFGBADM]) (\d+)$", line)
         if m:
             cur = (m.group(1), int(m.group(2)))
             secs[cur] = []
@@ -562,7 +633,8 @@ def drop_yields(s):
 
 # ------------------------------------------------------------------ running and comparing
 
-SEC_NAME = {"P": "plain", "F": "generator-for-in", "G": "generator-next", "B": "await-on-pool-thread", "A": "await-on-main-thread"}
+SEC_NAME = {"P": "plain", "F": "generator-for-in", "G": "generator-next", "B": "await-on-pool-thread", "A": "await-on-main-thread",
+            "D": "generator-resumed-at-depth", "M": "await-many-suspensions"}
 
 
 def panic_class(out):
@@ -601,6 +673,13 @@ def classify(fn, sec, exp, got, out_cls, out, prev_sec_had_error):
     """canonical class of the first disagreement of a program run"""
     name = SEC_NAME[sec]
     genlike = sec in ("F", "G")
+    if sec in ("D", "M"):
+        # the same body agreed with the model in the sections before: what differs is the stack level only
+        if out_cls in ("go_panic", "go_fatal", "signal"):
+            return name + ":crash"
+        if got is None:
+            return name + (":timeout" if out_cls == "timeout" else ":output-missing")
+        return name + (":wrong-yield-sequence" if sec == "D" else ":wrong-result-or-error")
     if got is None:
         if out_cls in ("go_panic", "go_fatal", "signal"):
             if gen_tail_call_shape(fn):
@@ -663,21 +742,23 @@ def run_batch(ctx, elk, m, cases, tag, flags, st):
     def run_variant(which, closures_everywhere):
         """which: list of (cid, pool). returns {(cid, pool): (rc, out, cls)}"""
         res = {}
-        for pool in POOLS:
+        for pool, size in sorted(set((p, cfgs[(c, p)]["size"]) for c, p in which), key=str):
             batch = []
             for cid, p in which:
-                if p != pool:
+                if p != pool or cfgs[(cid, p)]["size"] != size:
                     continue
                 fn, nn = progs[cid]
                 if closures_everywhere is None:
-                    src = program(fn, nn, flags["closure_then_yield_ok"])
+                    src = program(fn, nn, flags["closure_then_yield_ok"], cfgs[(cid, p)])
                 else:
-                    src = program_no_closures(fn, nn)
+                    src = program_no_closures(fn, nn, cfgs[(cid, p)])
                 batch.append((cid, src))
             if not batch:
                 continue
             env = {"ELK_DEFAULT_THREAD_POOL_SIZE": pool, "GOMAXPROCS": "4"}
-            wd = os.path.join(ctx.workdir, "%s_p%s%s" % (tag, pool, "" if closures_everywhere is None else "_nc"))
+            if size is not None:
+                env["ELK_INIT_VALUE_STACK_SIZE"] = size
+            wd = os.path.join(ctx.workdir, "%s_p%s_s%s%s" % (tag, pool, size, "" if closures_everywhere is None else "_nc"))
             r = vlib.run_programs(elk, batch, wd, timeout=90, env=env)
             slow = [(cid, src) for cid, src in batch if r[cid][2] == "timeout"]
             if slow:
@@ -686,6 +767,22 @@ def run_batch(ctx, elk, m, cases, tag, flags, st):
                 res[(cid, pool)] = v
         return res
 
+    # every (program, pool size) run gets a stack size, a stride and a phase order for sections D and M
+    cfgs = {}
+    crng = ctx.rng(STREAM + ".cfg." + tag)
+    for cid in sorted(progs):
+        fn, nn = progs[cid]
+        for pool in POOLS:
+            # pool size 1 always runs on the smallest stack: 179 suspensions lift its only worker over the threshold
+            size = "1" if pool == "1" else crng.choice(SIZE_LATTICE)
+            heavy = pool == "1"
+            cfg = dict(size=size, stride=crng.choice([5, 8, 8, 11]), first=crng.choice(["N", "F"]),
+                       many=(max(8, min(220, 440 // (1 + static_awaits(fn)))) if heavy else 6))
+            cfgs[(cid, pool)] = cfg
+            d, mexp = depth_expected(cfg, expected[cid], len(fn) - 5)
+            expected[cid][("D", 0, pool)] = d
+            expected[cid][("M", 0, pool)] = mexp
+            st["configs"][str(size)] = st["configs"].get(str(size), 0) + 1
     allruns = [(cid, pool) for cid in progs for pool in POOLS]
     res = run_variant(allruns, None)
     st["program_runs"] += len(res)
@@ -717,19 +814,39 @@ def run_batch(ctx, elk, m, cases, tag, flags, st):
                 key = "suspend:closure-captured-local-diverges"
         st["mismatches"] += 1
         case = sx_str(fn[:5] + [fn[5 + j]])
-        ctx.fail(key, "%s section of %s, pool size %s: implementation printed %s, model expects %s" % (
-            SEC_NAME[sec], case, pool, g if g is not None else "<nothing: %s>" % cls, e),
-            stream=STREAM, case=case, impl="\n".join(g) if g is not None else cls + ": " + out[-400:],
-            model="\n".join(e), oracle="the three wrappings must print what the proved reference semantics prints (pool size %s)" % pool)
+        cfg = cfgs[(cid, pool)]
+        where = "pool size %s, ELK_INIT_VALUE_STACK_SIZE %s" % (pool, cfg["size"] or "unset")
+        if sec in ("D", "M"):
+            # long sections: report the first line that differs
+            case = sx_str(fn[:5] + (fn[5:] if sec == "M" else [fn[5]]))
+            gl = g if g is not None else split_sections(out)[0].get((sec, 0), [])
+            k = next((i for i in range(min(len(gl), len(e))) if gl[i] != e[i]), min(len(gl), len(e)))
+            g = (gl[max(0, k - 1):k + 1] + (["<%s: %s>" % (cls, panic_class(out))] if cls != "ok" else [])) or ["<nothing>"]
+            e = e[max(0, k - 1):k + 1]
+            where += (", line %d of the section (stride %d frames of %d slots, %d padding locals, phase order %s first)"
+                      % (k, cfg["stride"], FRAME, PAD, cfg["first"])) if sec == "D" else ", line %d of %d awaits in a row" % (k, cfg["many"])
+        ctx.fail(key, "%s section of %s, %s: implementation printed %s, model expects %s" % (
+            SEC_NAME[sec], case, where, g if g is not None else "<nothing: %s>" % cls, e),
+            stream=STREAM, case=case + " ; " + where, impl="\n".join(g) if g is not None else cls + ": " + out[-400:],
+            model="\n".join(e), oracle="the three wrappings must print what the proved reference semantics prints (%s)" % where)
 
 
-def program_no_closures(fn, nn):
+def program_no_closures(fn, nn, cfg=None):
     np_ = int(fn[1])
-    src = program(fn, nn, False)
+    src = program(fn, nn, False, cfg)
     # replace the plain and async functions by closure-free prints
-    p_old, a_old = Printer("P", True).func(fn), Printer("A", True).func(fn)
-    p_new, a_new = Printer("P", False).func(fn), Printer("A", False).func(fn)
-    return src.replace(p_old, p_new).replace(a_old, a_new)
+    for mode in ("P", "A", "M"):
+        src = src.replace(Printer(mode, True).func(fn), Printer(mode, False).func(fn))
+    return src
+
+
+def static_awaits(fn):
+    """awaited helper calls in the text of the body (each is at least one suspension when it runs)"""
+    def go(x):
+        if isinstance(x, str):
+            return 0
+        return (1 if x and x[0] == "ha" else 0) + sum(go(y) for y in x if not isinstance(y, str))
+    return go(fn[2]) + go(fn[3]) + go(fn[4])
 
 
 def compare(fn, expsecs, out, cls, st, pool):
@@ -740,8 +857,10 @@ def compare(fn, expsecs, out, cls, st, pool):
     for j in range(nargs):
         order += [("B", j), ("F", j), ("G", j)]
     order += [("A", j) for j in range(nargs)]
+    if ("D", 0, pool) in expsecs:
+        order += [("D", 0), ("M", 0)]
     for idx, (s, j) in enumerate(order):
-        e = expsecs[(s, j)]
+        e = expsecs[(s, j, pool)] if s in "DM" else expsecs[(s, j)]
         g = secs.get((s, j))
         later = done or any(k in secs for k in order[idx + 1:])
         if g is None:
@@ -755,6 +874,10 @@ def compare(fn, expsecs, out, cls, st, pool):
         st["sections"] += 1
         st["sec_counts"][s] = st["sec_counts"].get(s, 0) + 1
         st["distinct"].add((sx_str(fn[:5]), tuple(fn[5 + j])))
+        if s == "D":
+            st["depth_lines"] += len(e)
+        if s == "M":
+            st["many_awaits"] += len([l for l in e if l[0] in "RE"])
         # second oracle, on the implementation's own output: the generator sections must show the
         # same elements as the plain run of the same binary (yields, then the result)
         if s in ("F", "G") and ("P", j) in secs:
@@ -777,6 +900,63 @@ def probe(elk, workdir):
                 closure_then_return_ok="[FAIL]" not in res["probe_r"][1] and res["probe_r"][0] == 0)
 
 
+CATCH_KEY = "generator-next-at-depth:catch-clause-above-half-stack"
+
+
+def catch_at_depth(ctx, elk):
+    """`g.next` inside do/catch :stop_iteration (the prelude's nx) at EVERY depth below the growth threshold of the
+    default stack: the catch clause itself runs deep.  (Sections D keep their catch clauses at depth 0, so that
+    this finding does not mask what they look for.)  Also replays the minimised witness of the corpus."""
+    cap = slots_of(None)
+    top = 7 * cap // (10 * FRAME)
+    src = PRELUDE + '''def *g1(x0: Int): Int ! String
+  yield x0
+  if x0 < 0
+    throw "t1"
+  end
+  x0 + 1
+end
+def rn(d: Int, g: Generator[Int, String]): String ! String
+  if d <= 0
+    return nx(g)
+  end
+  rn(d - 1, g)
+end
+def at(d: Int, x0: Int): String
+  g := g1(x0)
+  a := try rn(d, g)
+  b := try rn(d, g)
+  c := try rn(d, g)
+  a + "|" + b + "|" + c
+end
+d := 0
+while d <= %d
+  println("D " + d.inspect + " " + at(d, 3) + " " + at(d, -1))
+  d += 1
+end
+println("# DONE")
+''' % top
+    exp = ["D %d V 3|V 4|S V -1|E t1|S" % d for d in range(top + 1)] + ["# DONE"]
+    wit = open(os.path.join(vlib.ROOT, "corpus", "C15.catchdepth.elk")).read()
+    wexp = ["D %d E boom" % d for d in range(117)] + ["# DONE"]
+    res = vlib.run_programs(elk, [("catchdepth", src), ("catchdepth_witness", wit)], os.path.join(ctx.workdir, "catchdepth"),
+                            timeout=120, env={"GOMAXPROCS": "4"})
+    n = 0
+    for name, e in (("catchdepth", exp), ("catchdepth_witness", wexp)):
+        rc, out, cls = res[name]
+        got = [l for l in out.splitlines() if l.startswith(("D ", "# DONE"))]
+        k = next((i for i in range(min(len(got), len(e))) if got[i] != e[i]), min(len(got), len(e)))
+        n += k
+        if got != e or cls != "ok":
+            ctx.fail(CATCH_KEY, "%s: do/catch around a throw (`g.next` at the end of the iteration / a generator body's error / a "
+                     "plain throw) at recursion depth %d of the default value stack (%d slots): printed %s (%s), expected %s"
+                     % (name, k, cap, got[k:k + 1], cls if cls == "ok" else cls + ": " + panic_class(out), e[k:k + 1]),
+                     stream=STREAM, case="corpus/C15.catchdepth.elk" if name.endswith("witness") else "catch_at_depth(): depth %d" % k,
+                     impl="\n".join(got[max(0, k - 1):k + 1]) + "\n" + out[-300:], model="\n".join(e[max(0, k - 1):k + 1]),
+                     oracle="a generator signals the end of iteration / its body's error at any depth of the caller")
+    return n
+
+
 def load_corpus(path):
     out = []
     if os.path.exists(path):
@@ -790,7 +970,7 @@ def load_corpus(path):
 
 def new_stats():
     return dict(program_runs=0, sections=0, rejected=0, mismatches=0, yields=0, errors=0, noyield_cases=0,
-                reject_reasons={}, distinct=set(), sec_counts={})
+                reject_reasons={}, distinct=set(), sec_counts={}, configs={}, depth_lines=0, many_awaits=0)
 
 
 def run(ctx):
@@ -802,7 +982,12 @@ def run(ctx):
         "C15_forin_collects); for bodies without yields the generator and the awaited async wrapping produce S's value or "
         "error (C15_wrap_equiv); S is fuel-independent. Mechanism model (Model/C15_GenState.v, mirrors CallGeneratorNext / "
         "callBytecodePromise / restoreLastFrame): suspend then resume on any thread gives back the frame slice, ip, sp-fp and "
-        "every local (C15_save_restore_id, C15_suspend_caller, C15_resume_suspend_id); the faithful model does NOT keep a "
+        "every local (C15_save_restore_id, C15_suspend_caller, C15_resume_suspend_id); with the value stack as an array of "
+        "any capacity that may be reallocated by the resume itself (any growth policy, incl. the 70 % rule), pushing the "
+        "saved frame at a destination computed after the growth gives exactly the list-level resume "
+        "(C15_resume_after_grow, C15_resume_arr_refines; C15_resume_before_grow_refuted is the witness for a destination "
+        "taken before the growth check - a class of defect, not the code of /repo, whose resume prologue has no growth "
+        "check); the faithful model does NOT keep a "
         "captured local and its closure together across a suspension (C15_capture_coherent_refuted, witness; "
         "C15_capture_coherent_partial for frames without captured locals). C15_settle_once is the theorem of the C16 promise "
         "protocol model (every interleaving, every pool size). NOT proved: that the compiler/VM implement these models - "
@@ -810,7 +995,14 @@ def run(ctx):
         "extracted model. The async model treats an awaited helper promise as an atomic call: suspension inside an async "
         "body is covered by the mechanism theorems and the runs only. Settlement counts are not observable from Elk code "
         "and are not measured on the implementation. Interleavings are those the Go scheduler produces with pool sizes "
-        "1, 2, 4; they are not enumerated.")
+        "1, 2, 4; they are not enumerated. Stack depth / reallocation is tied to the implementation by runs only: sections D "
+        "(generator resumed at the bottom of recursions whose depth sweeps past the first two growth thresholds of a lattice "
+        "of ELK_INIT_VALUE_STACK_SIZE values) and M (many awaits in a row, pool size 1 on a 256-slot stack) must print what "
+        "the depth-free model prints; growth itself is not observable from Elk code, the sweep is laid out (3-slot frames, "
+        "26 padding locals under the resume, strides of 5/8/11 frames) so that a resume is the operation that crosses the "
+        "threshold. catch_at_depth(): do/catch around `next` at every depth below the first threshold of the default stack "
+        "(known finding generator-next-at-depth:catch-clause-above-half-stack, an out-of-bounds write of POP_2_SKIP_ONE; "
+        "implementation-level oracle only, the model has no catch clauses).")
     ctx.trusted_base += [
         "Python generator/printer of the three wrappings and the section parser (checks/C15.py); OCaml driver ocaml/C15/main.ml",
         "fixed Elk prelude (helpers h0..h3 and their async twins ah0..ah3) is assumed to implement Model.C15_Gen.helper",
@@ -818,7 +1010,7 @@ def run(ctx):
         "C16 protocol model as the meaning of 'settles once' (not re-tied to the implementation here)",
     ]
     ctx.run_proof_gate()
-    elk = vlib.build_elk()
+    elk = os.environ.get("C15_ELK_BINARY") or vlib.build_elk()     # C15_ELK_BINARY: development only
     m = vlib.build_model("C15")
     flags = probe(elk, ctx.workdir)
     rng = ctx.rng(STREAM)
@@ -829,6 +1021,7 @@ def run(ctx):
     st_c = new_stats()
     if corpus:
         run_batch(ctx, elk, m, corpus, "corpus", flags, st_c)
+    catch_lines = catch_at_depth(ctx, elk)
     st = new_stats()
     chunk = 400
     for off in range(0, len(cases), chunk):
@@ -841,7 +1034,13 @@ def run(ctx):
                         checker_accepts_yield_after_closure=flags["closure_then_yield_ok"],
                         checker_accepts_return_after_closure=flags["closure_then_return_ok"],
                         corpus_functions=len(corpus), corpus_runs=st_c["program_runs"], corpus_sections=st_c["sections"],
-                        corpus_mismatching_runs=st_c["mismatches"])
+                        corpus_mismatching_runs=st_c["mismatches"],
+                        init_value_stack_size_of_runs=dict((k, st["configs"].get(k, 0) + st_c["configs"].get(k, 0))
+                                                           for k in set(st["configs"]) | set(st_c["configs"])),
+                        catch_at_depth_lines_agreeing=catch_lines,
+                        depth_sweep_lines_compared=st["depth_lines"] + st_c["depth_lines"],
+                        awaits_in_a_row_compared=st["many_awaits"] + st_c["many_awaits"],
+                        depth_sweep=dict(frame_slots=FRAME, padding_locals=PAD, strides=[5, 8, 11], size_lattice=[x or "unset" for x in SIZE_LATTICE]))
     ctx.stream(STREAM, st["sections"] + st_c["sections"], len(st["distinct"] | st_c["distinct"]),
                "seeded function bodies (1-2 Int parameters, 0-4 locals initialised mostly from helper calls, statements: "
                "assignment, bump of a local through a closure, yield, if (then-branch may end in throw/return), bounded while "
@@ -851,7 +1050,16 @@ def run(ctx):
                "B (await inside an async function with do/catch on a pool thread), F (for-in over the generator inside a "
                "method), G (len(yields)+4 explicit next calls), A (await on the main thread inside do/catch); every program run "
                "with ELK_DEFAULT_THREAD_POOL_SIZE = 1, 2, 4. evaluation = one section of one run compared line by line with the "
-               "extracted model; non-trivial = distinct (function, arguments) executed. When the checker rejects yield/return "
+               "extracted model; non-trivial = distinct (function, arguments) executed. Every run also has "
+               "ELK_INIT_VALUE_STACK_SIZE from a lattice (1 -> the 256-slot minimum for pool size 1; 1, 6400, 6800, 7200, 9000, "
+               "12000 or unset otherwise) and two more sections: D = depth sweep, the generator (first argument tuple) is resumed "
+               "at the bottom of a recursion of d frames of 3 slots below a frame of 26 padding locals, d running in strides of "
+               "5/8/11 frames from 0 past 70 % of the initial capacity (phase 1) and past 70 % of the doubled capacity (phase 2), "
+               "one phase by explicit next calls (the first idx mod (k+1) of the k calls at depth 0, the rest at depth d), the "
+               "other by for-in over a generator passed down the recursion, so that a resume is the operation that makes the "
+               "stack grow; M = the async twin with awaited helper promises held in locals is awaited 6 times (pool sizes 2, 4) "
+               "or 8-220 times (pool size 1, enough suspensions to lift the only worker over its threshold) for every argument "
+               "tuple in turn; both compared line by line with the model's results. When the checker rejects yield/return "
                "after a closure literal (C12 finding) generator bodies print bumps without a closure and bodies with closures "
                "get no early return.",
                samples, distribution)
